@@ -332,6 +332,9 @@ func c06ConcurrentAddMount(t *T) {
 	results := make([]error, ntasks)
 	points := make([]string, ntasks)
 	var mfs *mount.FS
+	var badFS *mem.FS
+	var badErr error
+	badDone := false
 	inBubble(t, 20000, func(s *Sched) {
 		root, _ := mem.NewFS()
 		must(t, root.MkdirAll("a/b", 0755))
@@ -347,8 +350,39 @@ func c06ConcurrentAddMount(t *T) {
 				t.Logf("mounter%d AddMount(%q) -> %v", i, points[i], results[i])
 			})
 		}
+		// an AddMount that must fail (missing directory / regular file) racing with operations on that path:
+		// nothing may ever be routed into a file system that was never mounted
+		if c.Chance(1, 2) {
+			badPoint := []string{"nope", "file", "a/nope"}[c.Draw(3)]
+			must(t, hackpadfs.WriteFullFile(root, "file", []byte("f"), 0644))
+			badFS, _ = mem.NewFS()
+			s.Go("bad-mounter", func() {
+				badErr = mfs.AddMount(badPoint, badFS)
+				badDone = true
+				t.Logf("bad-mounter AddMount(%q) -> %v", badPoint, badErr)
+			})
+			nusers := 1 + c.Draw(2)
+			for u := 0; u < nusers; u++ {
+				u := u
+				s.Go(fmt.Sprintf("user%d", u), func() {
+					for k := 0; k < 2; k++ {
+						err := hackpadfs.WriteFullFile(mfs, badPoint+"/x", []byte("stray"), 0644)
+						t.Logf("user%d WriteFullFile(%q) -> %v", u, badPoint+"/x", err)
+						_, _ = hackpadfs.Stat(mfs, badPoint)
+					}
+				})
+			}
+		}
 		t.Logf("mode=concurrent-addmount %v", points)
 		s.Run()
+		if badFS != nil && !t.Failed() {
+			if badDone && badErr == nil {
+				t.failNoPanic("addmount", "C06:concurrent-addmount:bad-point-accepted", "AddMount on a missing directory / a regular file succeeded")
+			}
+			if ents, err := hackpadfs.ReadDir(badFS, "."); err == nil && len(ents) > 0 {
+				t.failNoPanic("leak", "C06:concurrent-addmount:routed-into-unmounted-fs", fmt.Sprintf("an operation issued while an AddMount that failed was in progress took effect in the file system that was never mounted (it now holds %d entries)", len(ents)))
+			}
+		}
 	})
 	if t.Failed() {
 		return
